@@ -10,5 +10,6 @@ sys.path.insert(0, os.path.dirname(os.path.abspath(__file__)))
 import lib  # noqa
 lib.repo_setup()
 import extract  # noqa
+extract._discover()
 extract.run(sorted(extract.GENERATORS))
 print('regenerated:', ', '.join(sorted(extract.GENERATORS)))
